@@ -241,7 +241,10 @@ fn gen_case(src: &mut Src, force_h: usize, huge_ok: bool) -> Case {
     let long = alt_if(src, r >= 5, 10, &["pw-short", "pw-127-bytes", "pw-128-bytes", "pw-200-bytes", "pw-2-byte-char-across-byte-127", "pw-3-byte-char-across-byte-127", "pw-4-byte-char-across-byte-127"]);
     // UTF-8 passwords in which the cut after 127 bytes falls inside a character: the cut is by bytes (7.6.4.3.3 step b)
     let across = |pw: Vec<u8>, ch: &str, salt: u8| -> Vec<u8> {
-        let mut v: Vec<u8> = pw.into_iter().take(40).collect();
+        // at most 40 bytes of the base password, cut between two characters
+        let mut cut = pw.len().min(40);
+        while cut > 0 && cut < pw.len() && (pw[cut] & 0xC0) == 0x80 { cut -= 1; }
+        let mut v: Vec<u8> = pw[..cut].to_vec();
         let w = ch.len();
         // the character that contains byte 127 (index 126 is the last byte kept) starts at 127 - j for some 1 <= j < w
         let j = 1 + (salt as usize) % (w - 1);
